@@ -585,6 +585,59 @@ def tdiv_r_2exp (res inp cnt : Nat) (s : St) : R St := do
       pure (in_size, in_size, s))                             -- :67
   tdivR2expTail res inp res_size limb_cnt s                   -- :70-72
 
+/-- cfdiv_r_2exp.c:124-144: `high = wp[limb_cnt] & LOW_MASK (cnt); wp[limb_cnt] = high;`, strip the high zero limbs,
+    `SIZ (w) = ±limb_cnt`.  `wp` is the pointer fetched earlier by the caller. -/
+def cfdivRMask (w wp lc c : Nat) (neg : Bool) (s : St) : R St := do
+  let l ← s.load wp (lc + 1)
+  let s ← s.storeAt wp lc [l.getD lc 0 % 2 ^ c]               -- :125-127
+  let v := val l % (B ^ lc * 2 ^ c)
+  pure (s.setSize w (if neg then -(sizeNat v : Int) else (sizeNat v : Int)))   -- :130-143
+
+/-- cfdiv_r_2exp.c:109-123, the `negate:` path: `MPZ_REALLOC (w, limb_cnt+1); up = PTR(u); wp = PTR(w);` (re-fetched: w may
+    be u here), one's complement of the low limbs of u filled up with ones, + 1, `usize = -usize`. -/
+def cfdivRNegate (w u n lc c : Nat) (neg : Bool) (s : St) : R St := do
+  let s := s.mpzRealloc w (lc + 1)                            -- :109
+  let up := s.ptr u                                           -- :110
+  let wp := s.ptr w                                           -- :111
+  let l ← s.loadAt up 0 (min n (lc + 1))                      -- :114-117
+  let s ← s.storeAt wp 0 (toLimbs (lc + 1) (B ^ (lc + 1) - val l))   -- :121
+  cfdivRMask w wp lc c neg s                                  -- :123-144
+
+/-- cfdiv_r_2exp (w, u, cnt, dir) of mpz/cfdiv_r_2exp.c:36-145 (`dir = 1`: mpz_cdiv_r_2exp, `dir = -1`: mpz_fdiv_r_2exp).
+    `up = PTR (u)` is fetched early (:57) "MPZ_REALLOC(w) below is only when w!=u": true on the truncating side (:59-84), and
+    the `negate:` side re-fetches it after its realloc. -/
+def cfdiv_r_2exp (w u cnt : Nat) (dir : Int) (s : St) : R St := do
+  let usize := s.size u                                       -- cfdiv_r_2exp.c:43
+  if usize = 0 then pure (s.setSize w 0)                      -- :44-48
+  else
+    let lc := cnt / 64                                        -- :50
+    let c := cnt % 64                                         -- :51
+    let n := usize.natAbs                                     -- :52
+    let up := s.ptr u                                         -- :57
+    if ¬ sameSign usize dir then                              -- :59 round towards zero: truncate
+      if w = u then                                           -- :63
+        if n ≤ lc then pure s                                 -- :66-67
+        else cfdivRMask w (s.ptr w) lc c (decide (usize < 0)) s       -- :68, :124-144
+      else do
+        let i := min n (lc + 1)                               -- :72
+        let s := s.mpzRealloc w i                             -- :73
+        let wp := s.ptr w                                     -- :74
+        let l ← s.loadAt up 0 i                               -- :75 MPN_COPY (wp, up, i)
+        let s ← s.storeAt wp 0 l
+        if n ≤ lc then pure (s.setSize w usize)               -- :78-82
+        else cfdivRMask w wp lc c (decide (usize < 0)) s
+    else do                                                   -- :85 round away from zero
+      let needNeg ← (if n ≤ lc then pure true else do         -- :90-91
+          let lo ← s.loadAt up 0 lc                           -- :94-96
+          if val lo ≠ 0 then pure true else do
+            let x ← limbAt s up lc                            -- :99
+            pure (decide (x % 2 ^ c ≠ 0)))
+      if !needNeg then pure (s.setSize w 0)                   -- :103-104
+      else cfdivRNegate w u n lc c (decide (usize ≥ 0)) s     -- :106-123
+
+def cdiv_r_2exp (w u cnt : Nat) := cfdiv_r_2exp w u cnt 1
+def fdiv_r_2exp (w u cnt : Nat) := cfdiv_r_2exp w u cnt (-1)
+
 /-- cfdiv_q_2exp (w, u, cnt, dir) of mpz/cfdiv_q_2exp.c:33-91 (`dir = 1`: mpz_cdiv_q_2exp, `dir = -1`: mpz_fdiv_q_2exp).
     With `w = u` the shift overwrites the low limbs of u: the C looks at the limbs it is going to skip BEFORE the
     shift (:57-62). -/
